@@ -36,11 +36,12 @@ MODE = {"lit": "close"}
 # protected literal brackets: written with <noinclude/> between the brackets of a pair, so the tree gets a text
 # node with ]] but no [[ (or the reverse, or both) in places where an unprotected pair would be markup -- link
 # labels and targets, external-link texts, bold/italic/HTML inside a label -- and in cells, items, headings,
-# captions.  Every value ends in a word character: a label whose last character is ] is a separate matter
-# (LINK(a, 'x]') is written '[[a|x]]]', which reads as LINK(a, 'x') + ']'; recorded in the build notes).
+# captions.  The general values end in a word character; brackets at the very edge of a text, touching the
+# markup next to it, are generated separately (PLITS_EDGE at the end of a label, "glue" nodes around links).
 MARKER = "<noinclude/>"
 # (external-link texts only get the opening kind: a single ] already ends such a link, so ']<noinclude/>]' there
 # leaves a text that starts with ] right behind the link's own ] -- the same string-edge matter)
+PLITS_EDGE = ["x]", "y]]", "z ]", "[w]"]       # only used as the last thing in a link label
 PLITS_OPEN = ["x [[ y", "[[y", "[[[z", "v[[ [[u"]
 PLITS = ["x]]y", "]]y", "c ]] d", "p]]]q", "x [[ y", "[[y", "[[[z", "m]][[n", "]] ]]w", "v[[ [[u"]
 MAGICS = ["__NOTOC__", "__TOC__", "__FORCETOC__", "__NOEDITSECTION__"]
@@ -108,6 +109,13 @@ def inl(rng, d, lits=True, links=True, nb=False, ni=False, pl=True):
             # end / restart the link
             txt = txt or []
             txt.insert(rng.randrange(len(txt) + 1), label_plit(rng, nb, ni))
+        if pl is True and rng.random() < 0.05:
+            # the label ends in bracket text / in an external link, right in front of the closing ]]
+            txt = txt or []
+            if rng.random() < 0.6:
+                txt.append(["plit", rng.choice(PLITS_EDGE)])
+            else:
+                txt.append(["ext", rng.choice(URLS), [["t", rng.choice(WORDS)]] if rng.random() < 0.7 else None])
         target = rng.choice(WORDS + ["Cat:x", "a#frag", ":en:w"])
         if pl and rng.random() < 0.04:
             target = rng.choice(["a]" + MARKER + "]b", "File:a.png|thumb"])
@@ -143,9 +151,16 @@ def inl(rng, d, lits=True, links=True, nb=False, ni=False, pl=True):
         return ["nowiki", rng.choice(["[[x]]", "{{t}}", "a", "<b>"])]
     if r < 0.972:
         return ["magic", rng.choice(MAGICS)]
-    if r < 0.987:
+    if r < 0.983:
         if pl:
             return ["plit", rng.choice(PLITS_OPEN if pl == "open" else PLITS)]
+        return ["t", rng.choice(WORDS)]
+    if r < 0.988:
+        if pl is True and links:
+            mid = ["link", rng.choice(WORDS), None, ""] if rng.random() < 0.5 else \
+                ["ext", rng.choice(URLS), [["t", rng.choice(WORDS)]]]
+            left, right = rng.choice([("x[", ""), ("q [", ""), ("", "]y"), ("", "] z"), ("x[", "]y"), ("[", "]")])
+            return ["glue", left, mid, right]
         return ["t", rng.choice(WORDS)]
     if lits:
         return ["lit", rng.choice(LITS_NEUTRAL + (LITS_OPEN if opening else LITS_CLOSE) * 2)]
@@ -261,7 +276,15 @@ def r_inl(n):
     if k == "i":
         return "''" + r_inls(n[1]) + "''"
     if k == "link":
-        return "[[" + n[1] + ("" if n[2] is None else "|" + r_inls(n[2])) + "]]" + n[3]
+        lab = "" if n[2] is None else "|" + r_inls(n[2])
+        if lab.endswith("]"):
+            lab += MARKER          # label ending in ] (text, or an external link): kept apart from the closing ]]
+        return "[[" + n[1] + lab + "]]" + n[3]
+    if k == "glue":
+        # text touching a link / external link: "x[" directly in front of it, "]y" directly behind it
+        mid = r_inl(n[2])
+        return protect(n[1]) + (MARKER if n[1].endswith("[") and mid.startswith("[") else "") + mid + \
+            (MARKER if n[3].startswith("]") and mid.endswith("]") else "") + protect(n[3])
     if k == "ext":
         return "[" + n[1] + ("" if n[2] is None else " " + r_inls(n[2])) + "]"
     if k == "url":
@@ -351,12 +374,20 @@ def features(doc):
                 continue
             f.add({"b": "bold", "i": "italic", "lit": "literal-brackets", "ext": "extlink", "url": "bareurl",
                    "tmpl": "template", "pf": "parserfn", "targ": "tmplarg", "html": "html-inline", "void": "html-void",
-                   "magic": "magic-word", "nowiki": "nowiki", "link": "link", "plit": "protected-literal"}[k])
+                   "magic": "magic-word", "nowiki": "nowiki", "link": "link", "plit": "protected-literal",
+                   "glue": "text-bracket-touching-link"}[k])
             if ctx:
                 f.add(k + "-in-" + ctx)
             if k in ("b", "i"):
                 fi(n[1], ctx)
+            elif k == "glue":
+                f.add("glue-%s%s-%s" % ("L" if n[1] else "", "R" if n[3] else "", n[2][0]))
+                fi([n[2]], ctx)
             elif k == "link":
+                if n[2] and n[2][-1][0] == "plit" and n[2][-1][1].endswith("]"):
+                    f.add("label-ends-in-bracket-text")
+                if n[2] and n[2][-1][0] == "ext":
+                    f.add("label-ends-in-extlink")
                 if MARKER in n[1]:
                     f.add("protected-literal-in-link-target")
                 if "|" in n[1]:
@@ -522,6 +553,15 @@ def _inl_variants(n):
     elif k == "void":
         for i in range(len(n[2])):
             out.append([["void", n[1], n[2][:i] + n[2][i + 1:]]])
+    elif k == "glue":
+        out.append([n[2]])
+        out.append([["t", "x"]])
+        if n[1] and n[3]:
+            out.append([["glue", n[1], n[2], ""]])
+            out.append([["glue", "", n[2], n[3]]])
+        for rep in _inl_variants(n[2]):
+            if len(rep) == 1 and rep[0][0] == n[2][0]:
+                out.append([["glue", n[1], rep[0], n[3]]])
     return out
 
 
